@@ -26,4 +26,17 @@ def run(ctx):
             raise __import__("vlib").Infra("generator %s produced no behaviours" % g)
         res = ctx.go_test("c28", "TestReplay", cases=r.traces, timeout=900)
         ctx.absorb(res)
+    # end-to-end: the same rule through real connections (sendKexInit assembles the KEXINITs from the configs)
+    ctx.tlc_must_hold("SSHNegotiate_MC", cfg="SSHNegotiate_E2E.cfg", timeout=900)
+    r = ctx.tlc_must_hold("SSHNegotiate_MC", cfg="SSHNegotiate_GenE2E.cfg", workers=1, timeout=1800, count=False)
+    e2e = r.traces
+    if not e2e:
+        raise __import__("vlib").Infra("E2E generator produced nothing")
+    if not ctx.thorough:
+        import random
+        random.Random(ctx.seed).shuffle(e2e)
+        e2e = e2e[:1500]
+    res = ctx.go_test("c28", "TestE2E", cases=e2e, timeout=1500)
+    ctx.log("E2E: %d real handshakes" % res.get("evaluations", 0))
+    ctx.absorb(res)
     ctx.exhaustive = True
